@@ -24,7 +24,7 @@ import warnings
 from copy import deepcopy
 
 from .. import engine as E
-from ..labels import canon, csort
+from ..labels import canon, csort, fresh
 from ..snap import snapshot
 from . import common
 
@@ -172,8 +172,9 @@ def synth(sim, r, fname, obj, kind):
     xgi = sim.xgi
     f = getattr(xgi, fname)
     sig = inspect.signature(f)
-    nodes = list(obj.nodes)
-    edges = list(obj.edges)
+    # (labels equal to the stored ones, never the same objects)
+    nodes = [fresh(x) for x in obj.nodes]
+    edges = [fresh(x) for x in obj.edges]
     kwargs = {}
     args = [obj]
     sizes = sorted({len(obj.edges.members(e)) for e in edges}) if edges else []
@@ -363,6 +364,7 @@ def do_observe(sim, rec):
     random.seed(rec["uid"] * 7919 + 1)
     np.random.seed((rec["uid"] * 104729 + 7) % (1 << 32))
     exc = None
+    out = None
     fs = None
     if fn.startswith("xgi:write_") and sim.c08_dir is not None:
         # writers run on the simulated raw device: short writes always, and in about a third of
@@ -412,7 +414,69 @@ def do_observe(sim, rec):
         w.find({"C08"}, "input_mutated_" + "+".join(changed), fake, act.kind,
                f"{fn} ({'returned' if exc is None else 'raised ' + type(exc).__name__}) changed {changed}: "
                + "; ".join(f"{k}: {before[k]!r} -> {after[k]!r}" for k in changed)[:600])
+        return rec["actor"]
+    if exc is None and out is not None and out is not obj:
+        # what the function returned is the caller's: change it (top-level structure only, as for
+        # caller-supplied arguments) -- the input must not change with it
+        # (nothing *inside* a returned attribute dict is touched: xgi hands those out live)
+        attrish = "attr" in fn or fn.endswith("getitem") or fn.endswith(("to_hypergraph_dict", "to_hif_dict"))
+        n = 0 if attrish and not hasattr(out, "_net_attr") else poison_result(out, obj)
+        if n:
+            w.stats["result_objects_modified_after_call"] += n
+            after2 = deep_state(obj)
+            changed = diff_state(before, after2)
+            if changed:
+                fake = dict(rec, op="observe:" + fn.split(":", 1)[1])
+                w.find({"C08"}, "result_shares_state_with_input_" + "+".join(changed), fake, act.kind,
+                       f"{fn} returned an object that shares state with its input: modifying the result changed "
+                       f"{changed} of the input: " + "; ".join(f"{k}: {before[k]!r} -> {after2[k]!r}" for k in changed)[:600])
     return rec["actor"]
+
+
+def poison_result(out, obj, depth=0):
+    """modify a returned value in place where that is possible; returns the number of objects
+    touched.  Networks: a network attribute, a node, an edge and a membership; containers:
+    one more element (recursively, three levels)."""
+    n = 0
+    P = "__poison__"
+    with warnings.catch_warnings():
+        warnings.simplefilter("ignore")
+        try:
+            if hasattr(out, "_net_attr") and hasattr(out, "add_node"):
+                for f in (lambda: out.__setitem__(P, 1), lambda: out._net_attr.clear(), lambda: out.add_node(P),
+                          lambda: out.add_node_to_edge(next(iter(out.edges)), P),
+                          lambda: out.add_node_to_edge(next(iter(out.edges)), P, "in"),
+                          lambda: out.set_node_attributes({x: {P: 1} for x in out.nodes}),
+                          lambda: out.set_edge_attributes({x: {P: 1} for x in out.edges}),
+                          lambda: out.remove_node(next(iter(out.nodes))),
+                          lambda: out.remove_edge(next(iter(out.edges))) if not hasattr(out, "add_simplex")
+                          else out.remove_simplex_id(next(iter(out.edges)))):
+                    try:
+                        f()
+                        n += 1
+                    except Exception:
+                        pass
+            elif isinstance(out, dict):
+                # (no key is added to a returned dict: xgi hands out its attribute dicts live, as
+                # networkx does -- H.nodes[n], attrs.asdict(), the "node-data" of the dict formats --
+                # and C08 speaks of the call, not of what the caller does with such a dict)
+                if depth < 3:
+                    for v in list(out.values())[:50]:
+                        if not isinstance(v, dict) or depth < 1:
+                            n += poison_result(v, obj, depth + 1)
+            elif isinstance(out, (list, tuple)):
+                if depth < 3:
+                    for v in list(out)[:50]:
+                        n += poison_result(v, obj, depth + 1)
+                if isinstance(out, list):
+                    out.append(P)
+                    n += 1
+            elif isinstance(out, set):
+                out.add(P)
+                n += 1
+        except Exception:
+            pass
+    return n
 
 
 def exec_extra(sim, rec):
